@@ -2445,7 +2445,9 @@ func (p *Parser) primaryExpression() ast.ExpressionNode {
 		if p.mode == withoutBitwiseOrMode {
 			p.mode = normalMode
 		}
+		p.swallowNewlines()
 		expr := p.expressionWithModifier()
+		p.swallowNewlines()
 		p.consume(token.RPAREN)
 		return expr
 	case token.LBRACKET:
